@@ -245,6 +245,8 @@ pub struct Plan {
     /// device-call budget for the last operation
     pub budget: Option<u64>,
     pub suffix: bool,
+    /// only drop handles and unmount in the suffix (no stats / flush / listing): for read-only sessions
+    pub suffix_minimal: bool,
     pub log_data: bool,
     /// keep the device log of the whole session (not only of the last operation)
     pub log_all: bool,
@@ -253,7 +255,7 @@ pub struct Plan {
 
 impl Default for Plan {
     fn default() -> Self {
-        Plan { fault: None, budget: Some(2_000_000), suffix: true, log_data: false, log_all: false, pre_decode: true }
+        Plan { fault: None, budget: Some(2_000_000), suffix: true, suffix_minimal: false, log_data: false, log_all: false, pre_decode: true }
     }
 }
 
@@ -323,7 +325,15 @@ pub struct Exec {
     pub ticks_pre: u32,
     pub ticks_post: u32,
     pub status_at_mount: u8,
+    /// raw status byte in the image when the current mount epoch started
+    pub status_byte_at_mount: u8,
     pub status_post: u8,
+    /// image overlay at the call boundary (before the suffix flushes anything)
+    pub boundary_overlay: BTreeMap<u64, Box<[u8; 512]>>,
+    /// flags reported after mounting the image as abandoned at the call boundary
+    pub abandoned_boundary_flags: Option<Result<(bool, bool), ErrKind>>,
+    /// device log including the suffix's handle drops and unmount (when `log_all`)
+    pub log_full: Vec<Rec>,
     pub fs_state_post: Option<fatfs::verif::FsState>,
     pub completed: bool,
 }
@@ -1297,7 +1307,7 @@ fn boundary<'a>(fs: &'a Fs, slots: &mut Slots<'a>, cx: &mut RunCtx) {
     {
         let mut st = cx.st.borrow_mut();
         cx.ex.log = st.log.clone();
-        st.logging = false;
+        st.logging = cx.plan.log_all;
         cx.ex.oob_write = st.oob_write;
         cx.ex.max_addr = st.max_addr;
         cx.ex.status_post = {
@@ -1315,7 +1325,8 @@ fn boundary<'a>(fs: &'a Fs, slots: &mut Slots<'a>, cx: &mut RunCtx) {
     cx.ex.live_post = live;
     cx.ex.fs_state_post = Some(fs.verif_state());
     cx.ex.key = state_key(cx, fs, slots);
-    if !cx.plan.suffix {
+    cx.ex.boundary_overlay = cx.st.borrow().clone_overlay();
+    if !cx.plan.suffix || cx.plan.suffix_minimal {
         return;
     }
     let writes0 = cx.st.borrow().n_writes;
@@ -1361,6 +1372,28 @@ fn boundary<'a>(fs: &'a Fs, slots: &mut Slots<'a>, cx: &mut RunCtx) {
     cx.ex.suffix = sx;
 }
 
+pub fn raw_status(st: &DevState) -> u8 {
+    let boot = st.read_vec(0, 512);
+    decoder::parse_raw(&boot).map(|g| g.status).unwrap_or(0xFF)
+}
+
+/// mount a copy of an image (given as overlay on the configuration's base) and read the status flags,
+/// forgetting the session afterwards (nothing is written back)
+fn flags_of_abandoned(cfg: &Cfg, ov: &BTreeMap<u64, Box<[u8; 512]>>) -> Result<(bool, bool), ErrKind> {
+    let (st2, dev2) = new_dev(&cfg.base);
+    st2.borrow_mut().overlay = ov.clone();
+    let ctr2 = Rc::new(Cell::new(0));
+    let r = guarded(|| match mount(dev2, cfg, &ctr2) {
+        Ok(fs2) => {
+            let r = fs2.read_status_flags().map(|f| (f.dirty(), f.io_error())).map_err(ek);
+            std::mem::forget(fs2);
+            r
+        }
+        Err(e) => Err(ek(e)),
+    });
+    r.unwrap_or(Err(ErrKind::Other))
+}
+
 pub fn run(cfg: &Cfg, ops: &[Op], plan: &Plan) -> Exec {
     install_panic_hook();
     let (st, _dev0) = new_dev(&cfg.base);
@@ -1397,7 +1430,11 @@ pub fn run(cfg: &Cfg, ops: &[Op], plan: &Plan) -> Exec {
         ticks_pre: 0,
         ticks_post: 0,
         status_at_mount: 0,
+        status_byte_at_mount: 0,
         status_post: 0,
+        boundary_overlay: BTreeMap::new(),
+        abandoned_boundary_flags: None,
+        log_full: Vec::new(),
         fs_state_post: None,
         completed: false,
     };
@@ -1417,6 +1454,7 @@ pub fn run(cfg: &Cfg, ops: &[Op], plan: &Plan) -> Exec {
         }
     };
     cx.ex.status_at_mount = fs.verif_state().mount_status_flags;
+    cx.ex.status_byte_at_mount = raw_status(&st.borrow());
     loop {
         let end = run_epoch(&fs, &mut cx, &mut i);
         match end {
@@ -1490,6 +1528,7 @@ pub fn run(cfg: &Cfg, ops: &[Op], plan: &Plan) -> Exec {
                 match newfs {
                     Some(nfs) => {
                         cx.ex.status_at_mount = nfs.verif_state().mount_status_flags;
+                        cx.ex.status_byte_at_mount = raw_status(&st.borrow());
                         fs = nfs;
                     }
                     None => {
@@ -1498,6 +1537,7 @@ pub fn run(cfg: &Cfg, ops: &[Op], plan: &Plan) -> Exec {
                         match guarded(|| mount(MemDev::new(st.clone()), cfg, &ctr)) {
                             Ok(Ok(nfs)) => {
                                 cx.ex.status_at_mount = nfs.verif_state().mount_status_flags;
+                                cx.ex.status_byte_at_mount = raw_status(&st.borrow());
                                 fs = nfs;
                             }
                             _ => return cx.ex,
@@ -1517,6 +1557,17 @@ fn final_suffix(fs: Fs, cx: &mut RunCtx) {
     }
     let cfg = cx.cfg;
     let st = cx.st.clone();
+    cx.ex.abandoned_boundary_flags = Some(flags_of_abandoned(cfg, &cx.ex.boundary_overlay));
+    if cx.plan.suffix_minimal {
+        let r = guarded(move || fs.unmount().map_err(ek));
+        match r {
+            Ok(r) => cx.ex.suffix.unmount = Some(r),
+            Err(msg) => cx.ex.panic = Some((cx.ops.len(), format!("panic in final unmount: {msg}"))),
+        }
+        cx.ex.suffix.status_unmounted = raw_status(&st.borrow());
+        cx.ex.log_full = st.borrow().log.clone();
+        return;
+    }
     // abandon copy: handles are flushed and dropped, volume not unmounted
     {
         let ov = st.borrow().clone_overlay();
@@ -1551,6 +1602,7 @@ fn final_suffix(fs: Fs, cx: &mut RunCtx) {
         }
     }
     cx.ex.suffix.final_decoded = Some(decode_now(cx, &[]));
+    cx.ex.log_full = st.borrow().log.clone();
     let ctr = cx.ctr.clone();
     let r = guarded(|| match mount(MemDev::new(st.clone()), cfg, &ctr) {
         Ok(fs2) => {
